@@ -1,0 +1,11 @@
+//go:build !verif
+
+package server
+
+// Verification hooks compile to nothing unless built with -tags verif.
+
+func verifYield(point string, objs ...any) {}
+
+func verifEmit(event string, objs ...any) {}
+
+func verifAdjustProxy(target *Target) {}
